@@ -64,4 +64,94 @@ fn main() {
         _ => mout.push_str("pub fn mcp_year(_date: chrono::NaiveDate) -> Option<i32> { None }\n"),
     }
     fs::write(Path::new(&std::env::var("OUT_DIR").unwrap()).join("mcp_extract.rs"), mout).unwrap();
+
+    // ---- the MCP server's tool handlers (crate cgt-mcp keeps `mod server` private and the handlers are private async
+    // methods): the current text of error.rs / resources.rs / server.rs is compiled into the harness as module `mcpgen`
+    // (inner doc comments and the #[cfg(test)] module removed, `crate::` re-rooted), with a small entry module appended
+    // INSIDE `server` so that the private handlers can be called. Only used with feature "mcp".
+    let out_dir = std::env::var("OUT_DIR").unwrap();
+    let mdir = "/repo/crates/cgt-mcp/src";
+    let strip = |name: &str| -> Option<String> {
+        let path = format!("{mdir}/{name}");
+        println!("cargo:rerun-if-changed={path}");
+        let t = fs::read_to_string(&path).ok()?;
+        let t = match t.find("#[cfg(test)]\nmod tests") {
+            Some(i) => t[..i].to_string(),
+            None => t,
+        };
+        let t: String = t.lines().filter(|l| !l.trim_start().starts_with("//!")).collect::<Vec<_>>().join("\n");
+        // include_str!/include_bytes! paths are relative to the original file
+        let t = t.replace("include_str!(\"", &format!("include_str!(\"{mdir}/")).replace("include_bytes!(\"", &format!("include_bytes!(\"{mdir}/"));
+        Some(t.replace("crate::", "crate::mcpgen::"))
+    };
+    let gen_mcp = match (strip("error.rs"), strip("resources.rs"), strip("server.rs")) {
+        (Some(e), Some(r), Some(sv)) => format!(
+            "pub const AVAILABLE: bool = true;\npub mod error {{\n{e}\n}}\npub use error::McpServerError;\npub mod resources {{\n{r}\n}}\npub mod server {{\n{sv}\n{ENTRY}\n}}\n"
+        ),
+        _ => "pub const AVAILABLE: bool = false;\n".to_string(),
+    };
+    fs::write(Path::new(&out_dir).join("mcp_gen.rs"), gen_mcp).unwrap();
 }
+
+/// Appended inside the copied `server` module: constructs a server the way the crate's own tests do and drives each tool
+/// handler to completion (the handlers contain no await point: one poll with a no-op waker must return Ready; Pending is
+/// reported as None = not covered).
+const ENTRY: &str = r#"
+pub mod verif_entry {
+    use super::*;
+    use std::future::Future;
+    use std::pin::pin;
+    use std::sync::Arc;
+    use std::task::{Context, Poll, Wake, Waker};
+
+    struct Noop;
+    impl Wake for Noop {
+        fn wake(self: Arc<Self>) {}
+    }
+    fn once<F: Future>(f: F) -> Option<F::Output> {
+        let w = Waker::from(Arc::new(Noop));
+        let mut cx = Context::from_waker(&w);
+        let mut f = pin!(f);
+        for _ in 0..4 {
+            if let Poll::Ready(v) = f.as_mut().poll(&mut cx) {
+                return Some(v);
+            }
+        }
+        None
+    }
+    /// Ok(text of the single text content) | Err(error message)
+    pub type Reply = Result<String, String>;
+    fn reply(r: Result<CallToolResult, McpError>) -> Reply {
+        match r {
+            Ok(res) => {
+                let mut texts = Vec::new();
+                for c in &res.content {
+                    if let RawContent::Text(t) = &c.raw {
+                        texts.push(t.text.clone());
+                    }
+                }
+                if texts.len() == 1 && res.content.len() == 1 { Ok(texts.remove(0)) } else { Err(format!("VERIF: {} content items, {} of them text", res.content.len(), texts.len())) }
+            }
+            Err(e) => Err(e.message.to_string()),
+        }
+    }
+    pub fn server(fx: Option<FxCache>, config: cgt_core::Config) -> CgtServer {
+        CgtServer { fx_cache: fx, config, tool_router: CgtServer::tool_router() }
+    }
+    pub fn parse_transactions(s: &CgtServer, transactions: &str) -> Option<Reply> {
+        once(s.parse_transactions(Parameters(ParseTransactionsRequest { transactions: transactions.to_string() }))).map(reply)
+    }
+    pub fn calculate_report(s: &CgtServer, transactions: &str, year: Option<i32>) -> Option<Reply> {
+        once(s.calculate_report(Parameters(CalculateReportRequest { transactions: transactions.to_string(), year }))).map(reply)
+    }
+    pub fn explain_matching(s: &CgtServer, transactions: &str, date: &str, ticker: &str) -> Option<Reply> {
+        once(s.explain_matching(Parameters(ExplainMatchingRequest { transactions: transactions.to_string(), disposal_date: date.to_string(), ticker: ticker.to_string() }))).map(reply)
+    }
+    pub fn convert_to_dsl(s: &CgtServer, transactions: &str) -> Option<Reply> {
+        once(s.convert_to_dsl(Parameters(ConvertToDslRequest { transactions: transactions.to_string() }))).map(reply)
+    }
+    pub fn get_fx_rate(s: &CgtServer, currency: &str, year: i32, month: u32) -> Option<Reply> {
+        once(s.get_fx_rate(Parameters(GetFxRateRequest { currency: currency.to_string(), year, month }))).map(reply)
+    }
+}
+"#;
